@@ -3,12 +3,15 @@ package main
 // R-EXHAUST (P8): enum-typed switches and enum-keyed map literals cover every constant of the type.
 
 import (
+	"fmt"
 	"go/ast"
 	"go/constant"
+	"go/token"
 	"go/types"
 	"sort"
 
 	"golang.org/x/tools/go/packages"
+	"golang.org/x/tools/go/types/typeutil"
 )
 
 // enumConstants returns the package-level constants whose type is exactly the named type t
@@ -163,6 +166,11 @@ func pkgVarLiteral(pk *packages.Package, name string) *ast.CompositeLit {
 							if cl, ok := v.X.(*ast.CompositeLit); ok {
 								return cl
 							}
+						case *ast.CallExpr:
+							// a table computed from lists of groups: read as the literal it is equivalent to
+							if cl := groupTableAsLiteral(pk, v); cl != nil {
+								return cl
+							}
 						}
 					}
 				}
@@ -170,4 +178,111 @@ func pkgVarLiteral(pk *packages.Package, name string) *ast.CompositeLit {
 		}
 	}
 	return nil
+}
+
+// groupTableAsLiteral reads `newTable(group1, group2, …)` / `newTable(listOfGroups)` as the map literal it computes,
+// when the constructor is the plain "every member of the i-th list maps to i+c" loop: for i, g := range groups { for _,
+// k := range g { m[k] = i + c } }. The lists must be literals (inline, or one package-level [][]T literal). The
+// synthesized literal has the members as keys (the original expressions, so their constant values are known) and the
+// group numbers as values (recorded in the package's type information so that readers find a constant).
+func groupTableAsLiteral(pk *packages.Package, call *ast.CallExpr) *ast.CompositeLit {
+	info := pk.TypesInfo
+	fn := typeutil.StaticCallee(info, call)
+	if fn == nil || fn.Pkg() != pk.Types {
+		return nil
+	}
+	var decl *ast.FuncDecl
+	for _, f := range pk.Syntax {
+		for _, d := range f.Decls {
+			if fd, ok := d.(*ast.FuncDecl); ok && info.Defs[fd.Name] == types.Object(fn) {
+				decl = fd
+			}
+		}
+	}
+	if decl == nil || decl.Body == nil || decl.Type.Params == nil || decl.Type.Params.NumFields() != 1 {
+		return nil
+	}
+	// the shape of the constructor
+	offset, shapeOK := int64(0), false
+	for _, st := range decl.Body.List {
+		outer, ok := st.(*ast.RangeStmt)
+		if !ok || outer.Key == nil || outer.Value == nil || len(outer.Body.List) != 1 {
+			continue
+		}
+		inner, ok := outer.Body.List[0].(*ast.RangeStmt)
+		if !ok || inner.Value == nil || len(inner.Body.List) != 1 || identObj(info, inner.X) != identObj(info, outer.Value) {
+			continue
+		}
+		as, ok := inner.Body.List[0].(*ast.AssignStmt)
+		if !ok || len(as.Lhs) != 1 || len(as.Rhs) != 1 {
+			continue
+		}
+		ix, ok := as.Lhs[0].(*ast.IndexExpr)
+		if !ok || identObj(info, ix.Index) != identObj(info, inner.Value) {
+			continue
+		}
+		switch rhs := ast.Unparen(as.Rhs[0]).(type) {
+		case *ast.Ident:
+			if identObj(info, rhs) == identObj(info, outer.Key) {
+				shapeOK = true
+			}
+		case *ast.BinaryExpr:
+			if rhs.Op == token.ADD && identObj(info, rhs.X) == identObj(info, outer.Key) {
+				if tv, ok := info.Types[rhs.Y]; ok && tv.Value != nil {
+					if n, exact := constant.Int64Val(tv.Value); exact {
+						offset, shapeOK = n, true
+					}
+				}
+			}
+		}
+	}
+	if !shapeOK {
+		return nil
+	}
+	// the groups
+	var groups []*ast.CompositeLit
+	asGroup := func(e ast.Expr) *ast.CompositeLit {
+		cl, _ := ast.Unparen(e).(*ast.CompositeLit)
+		return cl
+	}
+	if len(call.Args) == 1 {
+		if id, ok := ast.Unparen(call.Args[0]).(*ast.Ident); ok {
+			if outer := pkgVarLiteral(pk, id.Name); outer != nil {
+				for _, el := range outer.Elts {
+					g := asGroup(el)
+					if g == nil {
+						return nil
+					}
+					groups = append(groups, g)
+				}
+			}
+		}
+	}
+	if groups == nil {
+		for _, a := range call.Args {
+			g := asGroup(a)
+			if g == nil {
+				return nil
+			}
+			groups = append(groups, g)
+		}
+	}
+	if len(groups) == 0 {
+		return nil
+	}
+	out := &ast.CompositeLit{Lbrace: call.Pos(), Rbrace: call.End()}
+	if tv, ok := info.Types[call]; ok {
+		info.Types[out] = types.TypeAndValue{Type: tv.Type}
+	}
+	for i, g := range groups {
+		for _, member := range g.Elts {
+			if tv, ok := info.Types[member]; !ok || tv.Value == nil {
+				return nil
+			}
+			val := &ast.BasicLit{ValuePos: member.Pos(), Kind: token.INT, Value: fmt.Sprint(int64(i) + offset)}
+			info.Types[val] = types.TypeAndValue{Type: types.Typ[types.Int], Value: constant.MakeInt64(int64(i) + offset)}
+			out.Elts = append(out.Elts, &ast.KeyValueExpr{Key: member, Value: val})
+		}
+	}
+	return out
 }
